@@ -11,6 +11,7 @@ import EduceModel.Spec.Default
 import EduceModel.Gen.Union
 import EduceModel.DriverAttr
 import EduceModel.Bridge
+import EduceModel.Names
 /-
   Line-protocol driver: one JSON array per line in, one JSON array per line out.
   The executable definitions it runs are exactly the ones the theorems are about
@@ -444,6 +445,12 @@ def handle (st : St) (j : Json) : St × Option Json :=
     ({ st with cloneF := st.cloneF.insert (jstr a[1]!, jnat a[2]!, jnat a[3]!) (jnat a[4]!) }, none)
   else if op == "methv" then
     ({ st with methV := st.methV.insert (jstr a[1]!, jnat a[2]!, jnat a[3]!) (jnat a[4]!) }, none)
+  else if op == "pickname" then
+    -- ["pickname", "hasher" | "debugfield", type ident, [generic parameter names]] → the name the generated code picks
+    let gens := (jarr a[3]!).toList.map fun j => (jstr j).toList
+    let nm := if jstr a[1]! == "hasher" then Educe.Names.hasherName gens
+              else Educe.Names.debugFieldName (jstr a[2]!).toList gens
+    (st, some (Json.arr #["pickname", a[1]!, a[2]!, a[3]!, Json.str (String.ofList nm)]))
   else if op == "dbgv" then
     let st := { st with dbgV := st.dbgV.insert (jstr a[1]!, jnat a[2]!) (jstr a[3]!, jstr a[4]!) }
     (if a.size ≥ 7 then { st with dbgV := st.dbgV.insert (jstr a[1]! ++ "@w", jnat a[2]!) (jstr a[5]!, jstr a[6]!) } else st, none)
